@@ -129,6 +129,26 @@ def raw_rules(facts, rep):
            and s2["rv"]["k"] == "use" and s2["rv"]["op"].get("v") is not None and int(s2["rv"]["op"]["v"]) == 0]
     ok &= rep.check(bool(clr), rule, "raw-flag-cleared-on-close", where(ff, ff.span), "writing_raw is cleared when an entry is closed (next entry is patched normally)",
                     "finish_file no longer clears writing_raw")
+    # ... on EVERY successful path on which it was set: the flag new_append() sets protects the last OLD entry only.  An early
+    # `return Ok(())` (no entry yet: the base archive was empty) taken before the flag is consumed leaves it set for the first NEW
+    # entry, whose sizes and CRC then stay zero
+    from engine.paths import paths as _paths, outcome as _outcome
+    clr_blocks = {b for b, _ in clr}
+    leak = []
+    nok = 0
+    for p in _paths(ff, max_paths=20000):
+        if _outcome(p)[0] != "Ok":
+            continue
+        nok += 1
+        raw = [v_ for a_, v_ in p["decisions"] if a_ == "self.writing_raw"]
+        if raw and raw[0] == 0:
+            continue            # decided: the flag was not set on this path
+        if not (set(p["blocks"]) & clr_blocks):
+            leak.append([(a_[:40], v_) for a_, v_ in p["decisions"]][-3:])
+    ok &= rep.check(nok >= 1 and not leak, rule, "raw-flag-consumed-on-every-close", where(ff, ff.span),
+                    "every successful path of finish_file either found writing_raw clear or clears it",
+                    "finish_file can return Ok with writing_raw still set (path ending in %s): after new_append() on an archive without entries the "
+                    "first appended entry is treated as a raw copy and keeps crc/sizes 0" % (leak[:1] or "no Ok path"))
     return ok
 
 
@@ -148,6 +168,8 @@ def run(ctx, rep):
     c = Codec(facts)
     writer_table(facts, rep, "C13-FIDELITY", facts.one(r"^write::write_central_directory_header$"), "CDH", spec, c)
     reader_table(facts, rep, "C13-FIDELITY", facts.one(r"^read::central_header_to_zip_file$"), "CDH", spec, c, adt_re=r"ZipFileData")
+    from rules.C01 import msdos_arg_order
+    msdos_arg_order(facts, rep, "C13-FIDELITY")     # the re-emitted timestamp is the recorded one (the parser does not normalise it)
     rep.floor("C13-SAMEPARSER", 4)
     rep.floor("C13-RAW", 9)
     rep.floor("C13-FIDELITY", 30)
